@@ -280,6 +280,9 @@ func (p *Protocol[X, W, A, S, Z]) ComputeProverResponse(statement Statement[X], 
 // Verification ensures: (1) the XOR of all branch challenges equals the verifier's
 // challenge, and (2) each branch's transcript is accepting under the underlying protocol.
 func (p *Protocol[X, W, A, S, Z]) Verify(statement Statement[X], commitment Commitment[A], challenge sigma.ChallengeBytes, response *Response[Z]) error {
+	if response == nil {
+		return ErrIsNil.WithMessage("response is nil")
+	}
 	if len(statement) != p.count {
 		return ErrInvalidLength.WithMessage("invalid statement length")
 	}
